@@ -445,7 +445,7 @@ def run(ctx):
     ex_op = next(r for r in recs if r["api"] == "operator" and len(r["u"]) >= 3 and r["kh"] != r["kw"])
     ctx.sample({"instance": _slim_inst(insts[ex_op["inst"]]), "operator_record": {k: ex_op[k] for k in ("bl", "opi", "opb", "real_ok")}})
     ctx.sample({"random_instance_record": next(r for r in recs if r["api"] == "image" and r["variant"] == "random")})
-    rejects = validate(ctx, recs, insts, "C03")
+    rejects = validate(ctx, recs, insts, "C03", chunk=2000 if quick else 4000)
     cross_check(recs, insts, rejects)
     ctx.note(f"{len(tl)} enumerated instances + {len(rnd)} random instances -> {len(recs)} records validated by Trace_Convolution")
     ctx.assumptions = [
